@@ -195,6 +195,44 @@ pub fn parse_json(text: &str) -> String {
 
 /// Plain-terminal report (`writer::Basic`, coloring never) parsed back into block records:
 /// `PE i | F f | R ind r | S ind scen retry | T ind bg idx res loc | H ind before payload loc | L m`.
+/// What a terminal shows after `text` was written to it: SGR colour sequences dropped, `ESC[nA` / `ESC[nB` move the
+/// cursor up / down, `\r` returns to column 0, `ESC[2K` clears the current line, text overwrites from the cursor.
+pub fn emulate_terminal(text: &str) -> String {
+    let mut lines: Vec<Vec<char>> = vec![vec![]];
+    let (mut row, mut col) = (0usize, 0usize);
+    let cs: Vec<char> = text.chars().collect();
+    let mut i = 0;
+    while i < cs.len() {
+        let c = cs[i];
+        if c == '\x1b' && cs.get(i + 1) == Some(&'[') {
+            let mut j = i + 2;
+            let mut num = String::new();
+            while j < cs.len() && (cs[j].is_ascii_digit() || cs[j] == ';') { num.push(cs[j]); j += 1; }
+            let fin = cs.get(j).copied().unwrap_or('m');
+            let n: usize = num.split(';').next().and_then(|x| x.parse().ok()).unwrap_or(1);
+            match fin {
+                'A' => row = row.saturating_sub(n),
+                'B' => { row += n; while lines.len() <= row { lines.push(vec![]); } }
+                'K' => { if num == "2" { lines[row].clear(); } else { lines[row].truncate(col); } }
+                _ => {}
+            }
+            i = j + 1;
+            continue;
+        }
+        match c {
+            '\r' => col = 0,
+            '\n' => { row += 1; col = 0; while lines.len() <= row { lines.push(vec![]); } }
+            _ => {
+                while lines[row].len() < col { lines[row].push(' '); }
+                if col < lines[row].len() { lines[row][col] = c; } else { lines[row].push(c); }
+                col += 1;
+            }
+        }
+        i += 1;
+    }
+    lines.iter().map(|l| l.iter().collect::<String>()).collect::<Vec<_>>().join("\n")
+}
+
 pub fn parse_basic(text: &str, payloads: &[String]) -> String {
     let loc_feat = |s: &str| -> String {
         Regex::new(r"feat/f(\d+)\.feature:\d+:\d+|f-(\d+):\d+:\d+").unwrap().captures(s)
@@ -316,8 +354,22 @@ pub fn gen_report(rng: &mut Rng, idx: usize) -> Case {
     let cut = rng_cut(rng);
     // a third of the runs: the reporters sit behind `fail_on_skipped` (Failed(NotFound) steps)
     crate::fam_pipe::NOTFOUND_MODE.with(|m| m.set(idx != 0 && rng.chance(1, 3)));
-    let evs = gen_canonical_stream(rng, &cat, cut);
+    let mut evs = gen_canonical_stream(rng, &cat, cut);
     crate::fam_pipe::NOTFOUND_MODE.with(|m| m.set(false));
+    // TRAILING logs: a log after the last step of an attempt (what an `after` hook that logs produces) — directed in
+    // case 1 (together with the terminal mode of the plain writer: the defect fixed in /repo 64d1269), else 1 in 6
+    let trailing = idx == 1 || rng.chance(1, 6);
+    if trailing {
+        let mut i = 0;
+        while i < evs.len() {
+            if let AEv::Scen(k, r, ASc::Finished) = &evs[i] {
+                let (k, r) = (*k, *r);
+                evs.insert(i, AEv::Scen(k, r, ASc::Log(1)));
+                i += 1;
+            }
+            i += 1;
+        }
+    }
     let nopath: Vec<usize> = specs.iter().filter(|f| f.path.is_none()).map(|f| f.id).collect();
 
     let run = |w: &mut dyn FnMut(&AEv)| { for e in &evs { w(e); } };
@@ -348,12 +400,21 @@ pub fn gen_report(rng: &mut Rng, idx: usize) -> Case {
     let ba_v0 = rng.below(3) as u8;
     let ba_v1 = rng.below(4) as u8;
     let ba_world = rng.chance(1, 2);
-    let mut ba = writer::Basic::raw(s4.clone(), writer::Coloring::Never, ba_v0);
-    let ba_cli = writer::basic::Cli { verbose: ba_v1, color: writer::Coloring::Never };
+    // half of the time in TERMINAL mode (`Coloring::Always`: colours, and the lines of steps in progress are cleared and
+    // re-drawn with cursor movements) — what a terminal would show afterwards is computed by `emulate_terminal`
+    // (only when stdout is not a terminal itself: the writer then counts one screen line per text line)
+    let ba_term_pick = rng.chance(1, 2) || idx == 1;
+    let ba_term = ba_term_pick && !std::io::IsTerminal::is_terminal(&std::io::stdout());
+    let ba_color = if ba_term { writer::Coloring::Always } else { writer::Coloring::Never };
+    let mut ba = writer::Basic::raw(s4.clone(), ba_color, ba_v0);
+    let ba_cli = writer::basic::Cli { verbose: ba_v1, color: ba_color };
     WITH_WORLD.with(|w| w.set(ba_world));
+    LOG_NEWLINE.with(|w| w.set(ba_term));
     run(&mut |e| block_on(Writer::<PW>::handle_event(&mut ba, cat.realize(e), &ba_cli)));
     WITH_WORLD.with(|w| w.set(false));
-    let ba_s = parse_basic(&s4.text(), &cat.payloads);
+    LOG_NEWLINE.with(|w| w.set(false));
+    let ba_text = if ba_term { emulate_terminal(&s4.text()) } else { s4.text() };
+    let ba_s = parse_basic(&ba_text, &cat.payloads);
 
     let (lt_s, ju_s, js_s) = (
         parse_libtest(&s1.text()),
